@@ -25,6 +25,7 @@
     X(unsigned char, xstr, [TS + 1]) X(unsigned char, fail_at, ) X(double, num, ) X(unsigned char, nstr, [TS + 3]) X(unsigned char, variant, )
 #define VF_MAXSZ 15
 #include "vf.h"
+#include "vf_str.h"
 #include "vf_tree.h"
 #include "vf_mem.h"
 #define malloc vf_malloc
